@@ -23,6 +23,8 @@
      cfg_callable_assume   (F55, fix e7dcc7d) the callable arm records the coinductive
                            assumption too (and retracts it on failure), so recursive function types
                            terminate
+     cfg_any_callable      (F25, fix dea0269) ANY mode: two callable types, and two process
+                           types, always overlap
      cfg_cc_callable       (F56, fix 2bb39f1; used by Narrow.v) contains_cycle descends into
                            Callable / Process types
    Fuel: `None` = out of fuel (the Rust recursion is bounded by the assumption set; the fuel is
@@ -37,7 +39,8 @@ Inductive union_mode := All | Any.
 
 Record rel_cfg := mk_cfg { cfg_retract : bool; cfg_selfstack : bool;
                            cfg_partial_name : bool; cfg_partial_any : bool;
-                           cfg_callable_assume : bool; cfg_cc_callable : bool }.
+                           cfg_callable_assume : bool; cfg_cc_callable : bool;
+                           cfg_any_callable : bool }.
 
 Definition assumptions := list (nat * nat).
 Definition key_eqb (k1 k2 : nat * nat) : bool :=
@@ -305,6 +308,7 @@ Section Step.
       else Some (false, A)
     (* 474-499: process types; `send_ok` and `receive_ok` are both evaluated before `&&` *)
     | TProcess send1 receive1, TProcess send2 receive2 =>
+      if cfg_any_callable cfg && (match mode with Any => true | All => false end) then Some (true, A) else
       let r_send :=
         match send1, send2 with
         | Some s1, Some s2 => rec A ss ps s1 s2
@@ -325,6 +329,7 @@ Section Step.
       end
     (* 502-543: callable types *)
     | TCallable param1 result1 receive1, TCallable param2 result2 receive2 =>
+      if cfg_any_callable cfg && (match mode with Any => true | All => false end) then Some (true, A) else
       let mark := length A in
       let A0 := if cfg_callable_assume cfg then key :: A else A in
       let ss1 := if cfg_selfstack cfg then push_once ss self_id else ss in
@@ -350,12 +355,13 @@ Fixpoint check_rel (cfg : rel_cfg) (P : registry) (mode : union_mode) (fuel : na
   end.
 
 (* the code as found at the pinned commit / with the proposed repairs *)
-Definition legacy_cfg : rel_cfg := mk_cfg false false false false false false.
-Definition f7_cfg : rel_cfg := mk_cfg true false false false false false.
-Definition fixed_cfg : rel_cfg := mk_cfg true true false false false false.          (* /repo at 2246a47 (F7, F12 repaired) *)
-Definition partial_cfg : rel_cfg := mk_cfg true true true true false false.  (* + 2932723 (F29) and 7ba69a0 (F25p) *)
-Definition f55_cfg : rel_cfg := mk_cfg true true true true true true.        (* + e7dcc7d (F55) and 2bb39f1 (F56) *)
-Definition current_cfg : rel_cfg := f55_cfg.                             (* = /repo today *)
+Definition legacy_cfg : rel_cfg := mk_cfg false false false false false false false.
+Definition f7_cfg : rel_cfg := mk_cfg true false false false false false false.
+Definition fixed_cfg : rel_cfg := mk_cfg true true false false false false false.          (* /repo at 2246a47 (F7, F12 repaired) *)
+Definition partial_cfg : rel_cfg := mk_cfg true true true true false false false.  (* + 2932723 (F29) and 7ba69a0 (F25p) *)
+Definition f55_cfg : rel_cfg := mk_cfg true true true true true true false.        (* + e7dcc7d (F55) and 2bb39f1 (F56) *)
+Definition f25_cfg : rel_cfg := mk_cfg true true true true true true true.   (* + dea0269 (F25) *)
+Definition current_cfg : rel_cfg := f25_cfg.                             (* = /repo today *)
 
 (* types.rs:204-215 / 223-234 *)
 Definition is_compatible_with (cfg : rel_cfg) (fuel : nat) (P : registry) (a b : nat) : option bool :=
